@@ -454,3 +454,45 @@ func W1R(sink Sink) {
 		}
 	}
 }
+
+// W1D digit-run family: numbers whose integer, fraction or exponent part is a run of 1..40
+// digits with one foreign byte at every offset of the run, at top level and as array / object
+// members (the same position-sensitivity concern as W1R, for the digit-scanning loops).
+func W1D(sink Sink) {
+	parts := []struct{ pre, suf string }{{"", ""}, {"-", ""}, {"0.", ""}, {"1.", "e5"}, {"1e", ""}, {"1E-", ""}, {"2.5e+", ""}, {"", ".5"}, {"", "e3"}}
+	ctx := []Context{{"", ""}, {" ", " "}, {"[", "]"}, {"[0,", ",1]"}, {`{"a":`, "}"}, {`{"a":0,"b":`, `,"c":1}`}, {`[{"a":0,"b":`, "}]"}}
+	bad := []byte{'e', 'E', '.', '-', '+', ' ', ',', 'x', 0x00, '/', ':', ']', '}', 0xe5, 0xc5, 'a'}
+	lens := []int{1, 2, 3, 4, 5, 7, 8, 9, 15, 16, 17, 18, 19, 20, 21, 31, 32, 33, 40}
+	digits := "1234567890987654321012345678909876543210"
+	c := &h.Case{Family: "W1D"}
+	c.DescFn = func(c *h.Case) string {
+		return fmt.Sprintf("number part %q+<%d digits>+%q in context %q..%q with byte 0x%02x at digit offset %d", parts[c.P[0]].pre, c.P[1], parts[c.P[0]].suf, ctx[c.P[3]>>8].Pre, ctx[c.P[3]>>8].Suf, c.P[3]&255, c.P[2])
+	}
+	buf := make([]byte, 0, 128)
+	for pi, pt := range parts {
+		for _, L := range lens {
+			for pos := -1; pos < L; pos++ {
+				for _, bb := range bad {
+					for ci, cx := range ctx {
+						buf = append(buf[:0], cx.Pre...)
+						buf = append(buf, pt.pre...)
+						st := len(buf)
+						buf = append(buf, digits[:L]...)
+						if pos >= 0 {
+							buf[st+pos] = bb
+						}
+						buf = append(buf, pt.suf...)
+						buf = append(buf, cx.Suf...)
+						c.Input = buf
+						c.Desc = ""
+						c.P = [4]int{pi, L, pos, ci<<8 | int(bb)}
+						sink(c)
+					}
+					if pos < 0 {
+						break
+					}
+				}
+			}
+		}
+	}
+}
